@@ -1013,6 +1013,8 @@ class Fxp():
             new_val = new_val_real + 1j * new_val_imag
 
             if index is not None:
+                if isinstance(self.val, np.ndarray) and self.val.dtype.kind in 'iu':
+                    self.val = self.val.astype(complex)     # (real codes receive a complex one by index: they are held as complex numbers from now on)
                 if isinstance(self.val, np.ndarray):
                     self.val[index] = new_val
                 else:
